@@ -7,7 +7,7 @@ import os
 import subprocess
 import sys
 
-from .core import Ctx, stable_hash
+from .core import ROOT, Ctx, stable_hash
 from .tlc import MachineryError
 from .trace import validate
 
@@ -25,7 +25,7 @@ def harvest(ctx: Ctx) -> list[dict]:
     paths = [p for p in (QUICK_PATHS if ctx.tier == "quick" else THOROUGH_PATHS) if os.path.exists(os.path.join(REPO, p))]
     if not paths:
         raise MachineryError(f"harvest: none of the test paths exists in {REPO}")
-    env = {**os.environ, "PYTHONHASHSEED": "0", "VF_HARVEST_OUT": str(out), "PYTHONPATH": f"{REPO}/src:{REPO}/tests/tests_helpers:/verif",
+    env = {**os.environ, "PYTHONHASHSEED": "0", "VF_HARVEST_OUT": str(out), "PYTHONPATH": f"{REPO}/src:{REPO}/tests/tests_helpers:{ROOT}",
            "VF_HARVEST_LIMIT": "8000" if ctx.tier == "quick" else "100000"}
     proc = subprocess.run([sys.executable, "-m", "pytest", "-q", "-p", "no:cacheprovider", "-p", "vf.harvest_plugin", "--timeout=900",
                            "--continue-on-collection-errors", *paths],
